@@ -31,10 +31,11 @@ PROPS = {
         kani=[],
         verus=['c17_wal'],
         pairs={},
-        native={'next_record': ['c17_tail_big_len', 'c17_tail_zero_fill', 'c17_tail_garbage', 'c17_truncate_every_byte'],
-                'try_read_u32': ['c17_tail_garbage', 'c17_truncate_every_byte'],
-                'append': ['c17_commit_after_tail', 'c17_truncate_every_byte'],
-                'replay_committed_from_path': ['c17_truncate_every_byte', 'c17_tail_garbage']},
+        native={'next_record': ['c17_tail_big_len', 'c17_tail_zero_fill', 'c17_tail_garbage', 'c17_commit_after_tail_shapes', 'c17_truncate_every_byte'],
+                'try_read_u32': ['c17_tail_garbage', 'c17_commit_after_tail_shapes', 'c17_truncate_every_byte'],
+                'append': ['c17_commit_after_tail', 'c17_commit_after_tail_shapes', 'c17_truncate_every_byte'],
+                'replay_committed_from_path': ['c17_aborted_then_commit', 'c17_truncate_every_byte', 'c17_tail_garbage', 'c17_commit_after_tail_shapes']},
+        native_all=['c17_tail_big_len', 'c17_tail_zero_fill', 'c17_tail_garbage', 'c17_commit_after_tail_shapes', 'c17_aborted_then_commit', 'c17_truncate_every_byte'],
         level_text='Proof for every log length and every tail, over a trusted file model: Verus proves the real WalReader::{try_read_u32,next_record} return a record exactly when a complete (length-limited, checksummed, decodable) frame starts at the read position and otherwise end the log without error; proves Wal::replay_committed_from_path returns exactly the committed-transaction fold of the records of the valid run; proves Wal::append places the new record right after the last complete record whatever tail the file had (so it is the next record every later reader sees) and never damages earlier records even when it fails; and proves the log-level lemmas: any bytes that do not start a complete frame after a run of frames leave the records unchanged, pure truncation inside a frame drops exactly that frame, committed transactions of a prefix are a prefix of the committed transactions.',
         level_note='Trusted: file model (File = bytes + position; read_exact/write_all/set_len/seek/metadata as specified in _file_model.rs/_file_ops.rs; fsync, rename and directory durability are not modelled), crc32 as an uninterpreted function, decode_body as a deterministic function whose agreement with the format is proved in unit c25_wal, single writer per file (C10 assumed). Not decided: GraphEngine::open/commit orchestration (how replayed transactions are applied to the page store), Wal::rewrite_as_snapshot. Verus gives no counterexample and Kani cannot ingest file I/O: on a failed obligation the driver runs native witness classes (replay-runner: every truncation point, zero fill, oversized length, garbage, commit-after-tail) against the tree under test and attaches the first that reproduces.',
         technique='contract-based deductive verification (Verus contracts on extracted WAL reader/appender/replay over a file model + inductive log lemmas)',
@@ -47,7 +48,19 @@ PROPS = {
         pairs={},
         native={'apply_create_node_multi_label': ['c18_node_table_spill'], 'write_i2e_record': ['c18_node_table_spill'],
                 'make_room_for_next_record': ['c18_node_table_spill']},
+        native_all=['c18_node_table_spill'],
         level_text='TBD', level_note='TBD', technique='TBD', design_ref='DESIGN.md §4 C18',
+    ),
+    'C28': dict(
+        title='Vacuum preserves the database',
+        kani=[],
+        verus=['c28_vacuum'],
+        pairs={},
+        native={'mark_csr_segment_pages': ['c28_vacuum_after_compact'], 'encode_meta': ['c28_vacuum_after_compact'],
+                'mark_reachable_pages': ['c28_vacuum_after_compact'], 'mark_blob_chain': ['c28_vacuum_after_compact'],
+                'read_direct': ['c28_vacuum_after_compact']},
+        native_all=['c28_vacuum_after_compact'],
+        level_text='TBD', level_note='TBD', technique='TBD', design_ref='DESIGN.md §4 C28',
     ),
     'C20': dict(
         title='ORDER BY sorts and SKIP/LIMIT slice it',
@@ -68,5 +81,4 @@ PROPS = {
 # claimed in DESIGN.md but whose check is not built yet: listed under not_applicable until it is
 PENDING = {
     'C26': 'check under construction (claimed in DESIGN.md §4; will move to checks when its units are committed)',
-    'C28': 'check under construction (claimed in DESIGN.md §4; will move to checks when its units are committed)',
 }
